@@ -88,6 +88,8 @@ func runC05(c *core.Ctx) {
 				c.OK("C05.outside", key, s.Pos(), "genesis import")
 			case strings.HasPrefix(core.PkgOf(fn), core.PkgTx) && (isDataRun(fn) || fn.Name() == "RunTx"):
 				c.OK("C05.outside", key, s.Pos(), "superseded handler/executor version, unreachable from the live decoder")
+			case senderOnlyHelper(c, fn, s, models):
+				c.OK("C05.outside", key, s.Pos(), "a helper of live transaction handlers; every call passes the transaction's sender for the debited account")
 			default:
 				c.Bad("C05.outside", key, s.Pos(), "balance debit/overwrite outside transaction handlers, the accounts module and genesis import: protocol code may only credit, slash stakes or freeze")
 			}
@@ -740,4 +742,54 @@ func senderMemo(sfn *ssa.Function) string {
 		}
 	}
 	return memo
+}
+
+// senderOnlyHelper: fn is an unexported function of the transaction package that debits the account
+// it is given as a parameter, it is called from live handlers only, and every one of those calls
+// passes the transaction's sender for that parameter (a fee-charging block moved out of Run).
+func senderOnlyHelper(c *core.Ctx, fn *ssa.Function, s *core.Site, models []*RunModel) bool {
+	if !strings.HasPrefix(core.PkgOf(fn), core.PkgTx) || fn.Object() == nil || fn.Object().Exported() || s.Arg(0) == nil {
+		return false
+	}
+	acct, ok := core.Unwrap(s.Arg(0)).(*ssa.Parameter)
+	if !ok {
+		return false
+	}
+	idx := -1
+	for i, q := range fn.Params {
+		if q == acct {
+			idx = i
+		}
+	}
+	if idx < 0 {
+		return false
+	}
+	byFn := map[*ssa.Function]*RunModel{}
+	for _, m := range models {
+		byFn[m.Fn] = m
+	}
+	n := 0
+	for _, cl := range c.CG().Callers(fn) {
+		root := cl
+		for root.Parent() != nil {
+			root = root.Parent()
+		}
+		m := byFn[root]
+		if m == nil {
+			if isDataRun(root) || root.Synthetic != "" {
+				continue // a superseded handler version; a compiler-made wrapper of the method
+			}
+			return false
+		}
+		for _, cs := range core.Sites(cl) {
+			if cs.Common.StaticCallee() != fn || idx >= len(cs.Common.Args) {
+				continue
+			}
+			n++
+			if !m.isTxSender(cs.Common.Args[idx]) {
+				return false
+			}
+		}
+	}
+	return n > 0
 }
